@@ -34,22 +34,26 @@ claim('C12',
       "Unbounded limb-exact proofs of mpq_inv (incl. dest==src pointer swap, sign moved to the numerator, DIVIDE_BY_ZERO exactly for 0), "
       "mpq_neg, mpq_abs, mpq_set, mpq_set_z, mpq_set_ui/si, mpq_set_num/den, mpq_get_num/den, mpq_swap: parts copied limb for limb, "
       "denominator positive, both parts well-formed in distinct blocks - hence canonical form is preserved.",
-      TB + "NOT covered: mpq_add/sub/mul/div/canonicalize (gcd/divexact/mul glue), mpq_mul_2exp/div_2exp, mpq_set_d/set_f. _mpz_realloc is used "
-      "by contract (proved in unit mpz_realloc_int against the allocator model).")
+      TB + "mpq_mul/div/add/sub/canonicalize are GLUE proofs on value tokens over ASSUMED gcd/divexact/mul/add contracts (the result is the reduced "
+      "fraction expressed through those uninterpreted functions, denominator positive, every aliasing). NOT covered: mpq_mul_2exp/div_2exp, mpq_set_d/set_f, "
+      "mpq_cmp*, mpq_equal. _mpz_realloc is used by contract (proved in unit mpz_realloc_int against the allocator model).")
 claim('C04',
       "For every function under contract: the representation invariant (allocation >= 1, |size| <= allocation, block of exactly ALLOC limbs, no "
       "leading zero limb at a ghost position) is a proved post-condition from ANY well-formed pre-state with ANY allocation (inductive over call "
       "histories); DFCC frame obligations prove only owned blocks are written; CBMC pointer/bounds checks on every access; _mpz_realloc passes the "
-      "exact current size to the reallocate function and clears a value that no longer fits (allocator model installed through the public pointers).",
+      "exact current size to the reallocate function and clears a value that no longer fits (allocator model installed through the public pointers). "
+      "Lifecycle: mpz_init/init2/clear/realloc2, mpq_init/clear, mpf_init2/clear/set_prec allocate and free blocks of exactly the recorded size (in bytes, "
+      "computed without int overflow - defect 6510f97 was found here) and leak nothing.",
       TB + "Covers only the functions listed in the evidence (mpn kernels, mpz_add/sub/neg/abs/set/swap, set/get/cmp/fits, mpq copy functions, "
-      "_mpz_realloc). 'Every sequence of API calls' is covered inductively for these functions only; leak-freedom on clear and the printf/scanf/"
-      "string layers are not covered.", cat='proof')
+      "_mpz_realloc, the init/clear functions, mpz_mul/tdiv_qr/tdiv_r glue, raw I/O). 'Every sequence of API calls' is covered inductively for these "
+      "functions only; the printf/scanf/string layers are covered only as far as C18 says.", cat='proof')
 claim('C05',
       "Every identification of output and input arguments that the manual permits is a separate symbolic branch of each unit's harness (mpz: "
       "w==u, w==v, u==v, all equal; mpq dest==src; mpn: identical pointers, and partial overlap in the permitted direction for copyi/copyd/"
       "lshift/rshift), and the same limb-exact post-condition, phrased over pre-state snapshots, is proved in each; operands that are not "
       "outputs are proved unmodified (frame + explicit 'source unchanged' obligations).",
-      TB + "Only for functions under contract (list in evidence); mpf functions and the division/gcd/multiplication families have no unit.")
+      TB + "Only for functions under contract (list in evidence). For mpz_mul, mpz_tdiv_qr, mpz_tdiv_r the aliased partitions are proved over ASSUMED "
+      "shape contracts of the multi-limb kernels; for the fdiv/cdiv/mod, mpq arithmetic, invert and lcm glue units over value tokens.")
 claim('C15',
       "Frame-derived: for every function under contract DFCC proves, for all inputs, that it writes nothing but argument-reachable blocks and "
       "ghost variables - in particular no static-storage object, so two threads on distinct destinations touch disjoint memory. Supporting static "
@@ -73,9 +77,9 @@ claim('C02',
       "remainder is non-zero and the signs differ / agree), keep a temporary copy of the divisor when it is an output, and raise DIVIDE_BY_ZERO iff d == 0. "
       "mpz_tdiv_qr (six partitions in which an output aliases an input or n == d): limb-level glue over an ASSUMED shape contract of mpn_tdiv_qr - "
       "|n| < |d| short-cut, temporary copies, the divider sees the original operand limbs, normal divisor top limb, non-overlap, quotient/remainder "
-      "sizes and signs, well-formed results.",
-      TB + "mpz_tdiv_qr/q/r are ASSUMED (uninterpreted quotient/remainder with sgn r in {0, sgn n}, |r| < |d|); values are 64-bit tokens for the interpreted "
-      "+/- steps. NOT covered: the truncating family itself, all _ui and _2exp forms, mpn_tdiv_qr/divrem/divrem_1/mod_1, divexact/divisible/congruent, "
+      "sizes and signs, well-formed results. mpz_tdiv_r (four partitions) likewise.",
+      TB + "In the floor/ceiling glue mpz_tdiv_qr/q/r are ASSUMED (uninterpreted quotient/remainder with sgn r in {0, sgn n}, |r| < |d|); values are 64-bit tokens for the interpreted "
+      "+/- steps. NOT covered: the quotient/remainder VALUES of the truncating family (mpn_tdiv_qr is assumed), mpz_tdiv_q, all _ui and _2exp forms, mpn_tdiv_qr/divrem/divrem_1/mod_1, divexact/divisible/congruent, "
       "and the word-division primitives (undecided by SAT, DESIGN 8).", technique='contract-based glue proof against assumed callee contracts (value tokens, CBMC)')
 claim('C17',
       "mpz_inp_raw: for EVERY 4-byte header the body region lies inside the (re)allocated block (no out-of-bounds write for any byte stream), the header "
@@ -99,7 +103,8 @@ claim('C18',
       "BOUNDED stand-in (not proof) for the flag parser of __gmp_doprnt, which CBMC could not reach: complete native enumeration of "
       "% flags{0..3} width precision Z conv over 9 values and of all pairs of ten conversions in one format, gmp_sprintf vs the C library.",
       TB + "Four genuine defects were found by these two checks on the original tree and repaired in /repo (known_findings.txt). NOT covered: %Q with a "
-      "slash, %F (doprntf.c), %N/%M, gmp_snprintf/asprintf buffer accounting, every scanf function. The bounded part trusts glibc's sprintf as the oracle.",
+      "slash, %F (doprntf.c), %N/%M, gmp_asprintf/obstack sinks, every scanf function. The four sink callbacks of gmp_snprintf (format, memory, reps, final) ARE "
+      "proved: never a byte past the buffer, always terminated, would-be length returned (vsnprintf as an ISO C stub). The bounded part trusts glibc's sprintf as the oracle.",
       technique='contract-based proof of the layout routine (CBMC, ghost output position) + bounded native enumeration of the format grammar (labelled bounded)')
 claim('C19',
       "Range post-conditions with the generator behind _gmp_rand as an assumed contract: gmp_urandomb_ui < 2^bits; gmp_urandomm_ui in [0,n-1] "
@@ -120,7 +125,7 @@ na('C08', 'no unit built in this round: only argument-handling glue of mpz_powm/
 na('C09', 'core slice attempted and undecided: the modexact identity behind the perfect-square residue filters did not come back from kissat in 10 min per divisor, the whole-function form in 30 min (DESIGN 11.3); Newton/Zimmermann root iterations are out of reach')
 claim('C13',
       "For the functions that are exact on the stored value - mpf_neg, mpf_abs, mpf_set (top min(size, prec+1) limbs, same exponent, every precision and "
-      "r == u), mpf_integer_p, mpf_get_ui, mpf_get_si, the six mpf_fits_*_p, mpf_set_ui/si, mpf_cmp, mpf_cmp_ui - unbounded limb-exact proofs, and the mpf "
+      "r == u), mpf_integer_p, mpf_get_ui, mpf_get_si, the six mpf_fits_*_p, mpf_set_ui/si, mpf_cmp, mpf_cmp_ui, mpf_set_prec, mpf_init2, mpf_clear - unbounded limb-exact proofs, and the mpf "
       "format rules (top limb non-zero, at most prec+1 limbs in a block of exactly prec+1 limbs, zero has exponent 0) as a proved post-condition.",
       TB + "NOT covered: mpf_add/sub/mul/div/sqrt and their _ui forms, mpf_set_q/set_z/set_d/set_str, mpf_mul_2exp/div_2exp, floor/ceil/trunc, mpf_get_str - "
       "i.e. every function with rounding; the 2^(2-p) relative error bound is a statement over reals that no contract here expresses.")
